@@ -385,6 +385,42 @@ pub fn run(tier: Tier) {
         }
     }
     let n_d = cases.len() - n_a - n_b - n_c;
+    // (e) rule graphs: every set of 3 unary copy rules over {p, mid, r} x every owner assignment
+    // x {own block + authority, everything} trusted sets: multi-round derivations that reach the
+    // same fact through several provenances, in different rounds
+    let shapes = [("mid", "p"), ("mid", "r"), ("r", "p"), ("r", "mid")];
+    let owners3 = [0usize, 1, A];
+    let graph_bases: Vec<Vec<WFact>> = vec![
+        vec![fact("p", vec![b::int(1)], &[0])],
+        vec![fact("p", vec![b::int(1)], &[0]), fact("p", vec![b::int(1)], &[1]), fact("mid", vec![b::int(2)], &[A])],
+    ];
+    for a in 0..shapes.len() {
+        for bq in a..shapes.len() {
+            for c in bq..shapes.len() {
+                for oa in owners3 {
+                    for ob in owners3 {
+                        for oc in owners3 {
+                            for tmask in 0..8u32 {
+                                if tier == Tier::Quick && (tmask == 2 || tmask == 5) {
+                                    continue;
+                                }
+                                let mk = |sh: (&str, &str), owner: usize, wide: bool| WRule {
+                                    owner,
+                                    trusted: if wide { vec![0, 1, owner, A] } else { vec![0, owner] }.into_iter().collect::<BTreeSet<_>>().into_iter().collect(),
+                                    rule: b::rule(sh.0, &[b::var("x")], &[b::pred(sh.1, &[b::var("x")])]),
+                                };
+                                let rules = vec![mk(shapes[a], oa, tmask & 1 != 0), mk(shapes[bq], ob, tmask & 2 != 0), mk(shapes[c], oc, tmask & 4 != 0)];
+                                for base in &graph_bases {
+                                    cases.push(("rule-graph".to_string(), WorldCase { facts: base.clone(), rules: rules.clone() }));
+                                }
+                            }
+                        }
+                    }
+                }
+            }
+        }
+    }
+    let n_e = cases.len() - n_a - n_b - n_c - n_d;
 
     let evals = AtomicUsize::new(0);
     let perm_runs = AtomicUsize::new(0);
@@ -516,7 +552,7 @@ pub fn run(tier: Tier) {
         "states": ev,
         "transitions": ev + perm_runs.load(Ordering::Relaxed) + order_runs.load(Ordering::Relaxed) + query_cmp.load(Ordering::Relaxed),
         "traces_validated_against_impl": ev,
-        "worlds": {"template x owner x trusted x fact base": n_a, "template pairs": n_b, "provenance matrix": n_c, "same rule from two owners": n_d},
+        "worlds": {"template x owner x trusted x fact base": n_a, "template pairs": n_b, "provenance matrix": n_c, "same rule from two owners": n_d, "rule graphs (3 copy rules over p/mid/r x owners x trusted sets)": n_e},
         "worlds_where_rules_derive_something": nonempty.load(Ordering::Relaxed),
         "worlds_skipped_reference_expression_error": ref_errors.load(Ordering::Relaxed),
         "insertion_order_permutation_runs": perm_runs.load(Ordering::Relaxed),
